@@ -224,6 +224,7 @@ type lockEv struct {
 type lockParty struct {
 	id      int
 	db      *kv.DB
+	stale   *kv.DB // the handle this party closed last (a second Close on it must be harmless for everybody else)
 	holding bool
 	evs     []lockEv
 	viol    *Violation
@@ -518,6 +519,7 @@ func (r *Runner) lockPartyMain(p *lockParty, ops []Op, isPeer bool, peer *peerPr
 			} else {
 				db := p.db
 				p.db = nil
+				p.stale = db
 				var err error
 				pm, fr := protect(func() { err = db.Close() })
 				if pm != "" || err != nil {
@@ -557,6 +559,19 @@ func (r *Runner) lockPartyMain(p *lockParty, ops []Op, isPeer bool, peer *peerPr
 				}
 			}
 			p.cnt["holder_token_writes"]++
+		case "reclose":
+			// Close on a handle that was already closed (the repository's own tests do this in their cleanup): it no
+			// longer holds the lock, so it must not change who does - no event for the lock model
+			if isPeer || p.stale == nil {
+				continue
+			}
+			db := p.stale
+			pm, fr := protect(func() { _ = db.Close() })
+			if pm != "" {
+				p.fail(prop, "panic", "Close-twice@"+fr, "second Close on a closed handle: %s (in %s)", clip(pm, 300), fr)
+				return
+			}
+			p.cnt["stale_closes"]++
 		case "damage":
 			if victim == "" {
 				continue
@@ -612,7 +627,11 @@ func genLock(c *Case, rng *vrt.Rand, tier string) func(r *Runner, i int) *Op {
 			case x < 8:
 				c.Clients[ci] = append(c.Clients[ci], Op{K: "close"})
 			case x < 9:
-				c.Clients[ci] = append(c.Clients[ci], Op{K: "put"})
+				if rng.Chance(0.5) {
+					c.Clients[ci] = append(c.Clients[ci], Op{K: "put"})
+				} else {
+					c.Clients[ci] = append(c.Clients[ci], Op{K: "reclose"})
+				}
 			default:
 				c.Clients[ci] = append(c.Clients[ci], Op{K: "yield"})
 			}
